@@ -1,2 +1,371 @@
-use crate::harness::Gen;
-pub fn gens() -> Vec<Gen> { vec![] }
+//! C06: a presentation carries exactly the selected disclosures and nothing else.
+
+use crate::gen_c01::emit_for_tree;
+use crate::harness::{fail, Gen, Verdict};
+use crate::oracle::{disclosure_paths, select_oracle, DiscIndex, Strategy};
+use crate::pipeline::Cfg;
+use crate::rng::Rng;
+use crate::sut::{self, Out};
+use crate::trees;
+use crate::util::{jstr, short, Parts, FAR_EXP, J};
+use serde_json::{json, Map};
+use std::collections::HashSet;
+
+pub fn gens() -> Vec<Gen> {
+    vec![
+        Gen { name: "c06.nested_arrays", prop: "C06", tags: &["array", "list", "select_disclosures_from_disclosed_list", "seats"], cases: cases_nested_arrays, check },
+        Gen { name: "c06.sequence", prop: "C06", tags: &["kb", "key_binding", "reset", "sequence", "create_presentation"], cases: cases_sequence, check },
+        Gen { name: "c06.catalog", prop: "C06", tags: &["select", "catalog"], cases: cases_catalog, check },
+        Gen { name: "c06.arbitrary_selection", prop: "C06", tags: &["arbitrary", "weak"], cases: cases_arbitrary, check },
+        Gen { name: "c06.enum", prop: "C06", tags: &["enum"], cases: cases_enum, check },
+    ]
+}
+
+fn sel_alternatives(v: &J, depth: usize) -> Vec<J> {
+    // all type-consistent selections for a value (bounded), incl. shorter / longer arrays
+    let mut out = vec![json!(true), json!(false), json!(null)];
+    if depth == 0 {
+        return out;
+    }
+    match v {
+        J::Array(a) => {
+            let mut combos: Vec<Vec<J>> = vec![vec![]];
+            for e in a {
+                let alts = sel_alternatives(e, depth - 1);
+                let mut next = Vec::new();
+                for c in &combos {
+                    for alt in &alts {
+                        let mut c2 = c.clone();
+                        c2.push(alt.clone());
+                        next.push(c2);
+                    }
+                }
+                combos = next;
+                if combos.len() > 400 {
+                    combos.truncate(400);
+                }
+            }
+            for c in &combos {
+                out.push(J::Array(c.clone()));
+            }
+            out.push(json!([]));
+            if let Some(first) = combos.last() {
+                let mut longer = first.clone();
+                longer.push(json!(true));
+                longer.push(json!([true]));
+                out.push(J::Array(longer));
+                if first.len() > 1 {
+                    out.push(J::Array(first[..1].to_vec()));
+                }
+            }
+        }
+        J::Object(o) => {
+            let mut combos: Vec<Map<String, J>> = vec![Map::new()];
+            for (k, e) in o {
+                let alts = sel_alternatives(e, depth - 1);
+                let mut next = Vec::new();
+                for c in &combos {
+                    next.push(c.clone()); // key absent
+                    for alt in &alts {
+                        let mut c2 = c.clone();
+                        c2.insert(k.clone(), alt.clone());
+                        next.push(c2);
+                    }
+                }
+                combos = next;
+                if combos.len() > 400 {
+                    combos.truncate(400);
+                }
+            }
+            for c in combos {
+                out.push(J::Object(c));
+            }
+        }
+        _ => {}
+    }
+    out
+}
+
+fn cases_nested_arrays(_rng: &mut Rng, sink: &mut dyn FnMut(J) -> bool) {
+    let trees = [
+        json!({"iss": "i", "exp": FAR_EXP, "seats": [["a", "b"], ["c", "d"]]}),
+        json!({"iss": "i", "exp": FAR_EXP, "m": [[["x"], "y"], "z"]}),
+        json!({"iss": "i", "exp": FAR_EXP, "rows": [{"cells": ["p", "q"]}, ["r", {"s": 1}]]}),
+    ];
+    let strategies: Vec<Vec<Strategy>> = vec![
+        vec![
+            Strategy::Custom(vec!["$.seats[1][0]".into()]),
+            Strategy::Custom(vec!["$.seats[1][0]".into(), "$.seats[1][1]".into(), "$.seats[0][1]".into()]),
+            Strategy::Custom(vec!["$.seats[0]".into(), "$.seats[1][1]".into()]),
+            Strategy::Custom(vec!["$.seats[0]".into(), "$.seats[0][0]".into(), "$.seats[1][0]".into()]),
+            Strategy::AllLevels,
+        ],
+        vec![Strategy::Custom(vec!["$.m[0][0][0]".into(), "$.m[0][1]".into()]), Strategy::Custom(vec!["$.m[0][0]".into(), "$.m[1]".into()]), Strategy::AllLevels],
+        vec![
+            Strategy::Custom(vec!["$.rows[0].cells[1]".into(), "$.rows[1][0]".into(), "$.rows[1][1].s".into()]),
+            Strategy::Custom(vec!["$.rows[1][1]".into(), "$.rows[1][1].s".into(), "$.rows[0].cells[0]".into()]),
+            Strategy::AllLevels,
+        ],
+    ];
+    let mut n = 0usize;
+    for (t, strats) in trees.iter().zip(&strategies) {
+        let (key, val) = t.as_object().unwrap().iter().nth(2).unwrap();
+        for s in strats {
+            for alt in sel_alternatives(val, 3) {
+                n += 1;
+                let mut cfg = Cfg::simple(t.clone(), s.clone()).variant(n);
+                if n % 3 != 0 {
+                    cfg.holder = None;
+                }
+                let mut case = cfg.to_json();
+                case["selection"] = json!({ key.clone(): alt });
+                if !sink(case) {
+                    return;
+                }
+            }
+        }
+    }
+}
+
+fn cases_sequence(_rng: &mut Rng, sink: &mut dyn FnMut(J) -> bool) {
+    let claims = json!({"iss": "i", "exp": FAR_EXP, "a": "x", "b": {"c": 1, "d": 2}, "e": ["f", "g"]});
+    let sels = [
+        json!({"a": true, "b": {"c": true}, "e": [true, true]}),
+        json!({"a": true}),
+        json!({}),
+        json!({"b": {"d": true}, "e": [false, true]}),
+    ];
+    let mut n = 0;
+    for format in ["compact", "json"] {
+        for holder in ["es256", "eddsa"] {
+            for s in [Strategy::AllLevels, Strategy::TopLevel] {
+                for first in &sels {
+                    for second in &sels {
+                        for first_kb in [true, false] {
+                            for second_kb in [false, true] {
+                                n += 1;
+                                let mut cfg = Cfg::simple(claims.clone(), s.clone()).variant(n);
+                                cfg.format = format.into();
+                                cfg.holder = Some(holder.into());
+                                let mut case = cfg.to_json();
+                                case["selection"] = second.clone();
+                                case["kb"] = json!(second_kb);
+                                case["before"] = json!([{"selection": first, "kb": first_kb}]);
+                                if !sink(case) {
+                                    return;
+                                }
+                            }
+                        }
+                    }
+                }
+            }
+        }
+    }
+}
+
+fn cases_catalog(rng: &mut Rng, sink: &mut dyn FnMut(J) -> bool) {
+    let mut counter = 0usize;
+    for (i, t) in trees::catalog().iter().enumerate() {
+        let claims = trees::with_std(t, i);
+        if !emit_for_tree(&claims, rng, &mut counter, 4, 3, sink) {
+            return;
+        }
+    }
+}
+
+fn cases_enum(rng: &mut Rng, sink: &mut dyn FnMut(J) -> bool) {
+    let mut counter = 0usize;
+    for n in 1..=4 {
+        for (i, t) in trees::trees_with_nodes(n).iter().enumerate() {
+            let claims = trees::with_std(t, i);
+            if !emit_for_tree(&claims, rng, &mut counter, 3, 2, sink) {
+                return;
+            }
+        }
+    }
+    loop {
+        let (a, b) = (6 + rng.below(6), 3 + rng.below(3));
+        let claims = trees::with_std(&trees::random_tree(rng, a, b), rng.below(3));
+        if !emit_for_tree(&claims, rng, &mut counter, 0, 3, sink) {
+            return;
+        }
+    }
+}
+
+/// Arbitrary (not type-consistent) selection JSON.
+pub fn arbitrary_selection(rng: &mut Rng, claims: &J, depth: usize) -> J {
+    let scalars = [json!(true), json!(false), json!(null), json!(0), json!(1), json!("x"), json!(""), json!(-3.5), json!({}), json!([])];
+    if depth == 0 || rng.chance(1, 3) {
+        return rng.pick(&scalars).clone();
+    }
+    if rng.coin() {
+        let mut m = Map::new();
+        // names from the claims at any level, plus unknown ones
+        let mut names: Vec<String> = crate::oracle::all_paths(claims)
+            .iter()
+            .filter_map(|p| match p.last() {
+                Some(crate::oracle::Seg::Key(k)) => Some(k.clone()),
+                _ => None,
+            })
+            .collect();
+        names.extend(["zzz", "_sd", "...", "iss", "cnf", "_sd_alg", ""].iter().map(|s| s.to_string()));
+        for _ in 0..rng.below(4) {
+            let k = rng.pick(&names).clone();
+            m.insert(k, arbitrary_selection(rng, claims, depth - 1));
+        }
+        J::Object(m)
+    } else {
+        J::Array((0..rng.below(5)).map(|_| arbitrary_selection(rng, claims, depth - 1)).collect())
+    }
+}
+
+fn cases_arbitrary(rng: &mut Rng, sink: &mut dyn FnMut(J) -> bool) {
+    let cat = trees::catalog();
+    let mut n = 0usize;
+    loop {
+        n += 1;
+        let claims = trees::with_std(&cat[n % cat.len()], n);
+        let strategy = match n % 3 {
+            0 => Strategy::AllLevels,
+            1 => Strategy::TopLevel,
+            _ => {
+                let mut r2 = rng.fork();
+                let all = trees::strategies_for(&claims, &mut r2, 0, 3);
+                rng.pick(&all).clone()
+            }
+        };
+        let sel = match arbitrary_selection(rng, &claims, 4) {
+            J::Object(m) => m,
+            other => {
+                let mut m = Map::new();
+                if let Some((k, _)) = claims.as_object().and_then(|o| o.iter().nth(rng.below(o.len()))) {
+                    m.insert(k.clone(), other);
+                }
+                m
+            }
+        };
+        let mut cfg = Cfg::simple(claims, strategy).variant(n);
+        if n % 4 != 0 {
+            cfg.holder = None;
+        }
+        let mut case = cfg.to_json();
+        case["selection"] = J::Object(sel);
+        case["weak"] = json!(true);
+        if !sink(case) {
+            return;
+        }
+    }
+}
+
+pub fn check(case: &J) -> Verdict {
+    let Some(cfg) = Cfg::from_json(case) else { return Verdict::Trivial };
+    let Some(selection) = case.get("selection").and_then(|s| s.as_object()) else { return Verdict::Trivial };
+    if !cfg.strategy.well_formed() {
+        return Verdict::Trivial;
+    }
+    let weak = case["weak"].as_bool().unwrap_or(false);
+    let want_kb = case.get("kb").and_then(|k| k.as_bool()).unwrap_or(cfg.holder.is_some());
+    let (issued, parts) = match cfg.issue_parts() {
+        Ok(x) => x,
+        Err(v) => return v,
+    };
+    let mut h = match sut::holder_new(&issued, &cfg.format) {
+        Out::Ok(h) => h,
+        o => return fail(format!("SDJWTHolder::new -> {}", o.brief()), "Ok"),
+    };
+    let kb = cfg.kb();
+    // earlier calls on the same holder instance
+    if let Some(before) = case.get("before").and_then(|b| b.as_array()) {
+        for b in before {
+            let Some(sel) = b["selection"].as_object() else { continue };
+            let use_kb = b["kb"].as_bool().unwrap_or(false);
+            if let Out::Panic(m) = sut::present(&mut h, sel, if use_kb { kb.as_ref() } else { None }) {
+                return fail(format!("earlier create_presentation PANIC: {m}"), "Ok or Err");
+            }
+        }
+    }
+    let pres = match sut::present(&mut h, selection, if want_kb { kb.as_ref() } else { None }) {
+        Out::Ok(p) => p,
+        Out::Err(e) => {
+            return if weak { Verdict::Pass } else { fail(format!("create_presentation -> Err({e})"), "Ok(presentation)") };
+        }
+        Out::Panic(m) => return fail(format!("create_presentation PANIC: {m}"), "Ok or Err"),
+    };
+    let Some(p) = Parts::parse(&pres, &cfg.format) else {
+        return fail(format!("presentation is not well-formed {}: {}", cfg.format, short(&pres, 200)), "jwt~d1~..~dn~[kb] / JSON object");
+    };
+    // shape
+    if cfg.format == "compact" {
+        if pres != p.to_compact() {
+            return fail(format!("compact presentation {}", short(&pres, 300)), "exactly jwt~d1~...~dn~[kb]");
+        }
+    } else {
+        let v: J = serde_json::from_str(&pres).unwrap_or(J::Null);
+        let allowed = ["protected", "payload", "signature", "disclosures", "kb_jwt"];
+        if let Some(k) = v.as_object().and_then(|o| o.keys().find(|k| !allowed.contains(&k.as_str()))) {
+            return fail(format!("JSON presentation has extra member `{k}`"), "no other data");
+        }
+    }
+    if p.jwt != parts.jwt {
+        return fail(format!("issuer-signed JWT in the presentation is {}", short(&p.jwt, 200)), format!("byte-identical to the issued one {}", short(&parts.jwt, 200)));
+    }
+    match (&p.kb, want_kb) {
+        (Some(k), false) => return fail(format!("presentation carries a KB-JWT ({}) although none was requested", short(k, 60)), "no KB-JWT"),
+        (None, true) => return fail("no KB-JWT although one was requested", "KB-JWT present"),
+        (Some(k), true) => {
+            // it must be the KB-JWT of THIS presentation
+            let claims: Option<J> = k.split('.').nth(1).and_then(crate::util::b64d).and_then(|b| serde_json::from_slice(&b).ok());
+            let expected_hash = crate::pipeline::sd_hash(&p.jwt, &p.disclosures);
+            let kbr = kb.as_ref().unwrap();
+            let ok = claims
+                .as_ref()
+                .map(|c| c["sd_hash"] == json!(expected_hash) && c["nonce"] == json!(kbr.nonce) && c["aud"] == json!(kbr.aud))
+                .unwrap_or(false);
+            if !ok {
+                return fail(format!("KB-JWT payload {}", claims.map(|c| jstr(&c)).unwrap_or_default()), format!("nonce/aud as requested and sd_hash {expected_hash} of this presentation"));
+            }
+        }
+        (None, false) => {}
+    }
+    let Some(payload) = parts.payload() else { return Verdict::Trivial };
+    let genuine: HashSet<&String> = parts.disclosures.iter().collect();
+    let mut seen = HashSet::new();
+    for d in &p.disclosures {
+        if !genuine.contains(d) {
+            return fail(format!("presentation contains `{}` which is not one of the issued disclosures", short(d, 80)), "only genuine disclosures");
+        }
+        if !seen.insert(d) {
+            return fail(format!("disclosure {} appears twice", crate::util::decode_disclosure(d).map(|v| jstr(&v)).unwrap_or_default()), "each at most once");
+        }
+    }
+    if weak {
+        // each disclosure together with the disclosures of its hidden ancestors
+        let dp = disclosure_paths(&cfg.claims, &payload, &parts.disclosures);
+        let have: HashSet<_> = p.disclosures.iter().filter_map(|d| dp.get(d).cloned()).collect();
+        for d in &p.disclosures {
+            if let Some(path) = dp.get(d) {
+                for l in 1..path.len() {
+                    if cfg.strategy.designated(&path[..l]) && !have.contains(&path[..l].to_vec()) {
+                        return fail(
+                            format!("disclosure of {} presented without the disclosure of its hidden ancestor {}", crate::oracle::path_str(path), crate::oracle::path_str(&path[..l])),
+                            "each disclosure together with those of its hidden ancestors",
+                        );
+                    }
+                }
+            }
+        }
+        return Verdict::Pass;
+    }
+    let idx = DiscIndex::new(&parts.disclosures);
+    let expected: HashSet<String> = select_oracle(&payload, &idx, selection).into_iter().collect();
+    let got: HashSet<String> = p.disclosures.iter().cloned().collect();
+    if got != expected {
+        let show = |s: &HashSet<String>| {
+            let mut v: Vec<String> = s.iter().map(|d| crate::util::decode_disclosure(d).map(|v| jstr(&json!(v.as_array().map(|a| a[1..].to_vec())))).unwrap_or_default()).collect();
+            v.sort();
+            v.join(" ")
+        };
+        return fail(format!("presented disclosures (name?, value): {}", show(&got)), format!("exactly those of the selected claims: {}", show(&expected)));
+    }
+    Verdict::Pass
+}
